@@ -134,8 +134,12 @@ def large_carrier_case(draw):
                                              "terms": [[[0 if form == "const-poly" else 1], [int(f * 4)]]]}}
             spec.append({"how": "kw", "val": val})
             continue
-        t = draw(st.sampled_from(["pyint", "np", "np", "array"]))
-        if t == "pyint":
+        t = draw(st.sampled_from(["pyint", "np", "np", "array", "poly"] if (i == 0 and kind != "i" and len(names) == 1) else ["pyint", "np", "np", "array"]))
+        if t == "poly":
+            # the integer carried by a polynomial with integer coefficients (a constant, or a monomial in a new name)
+            val = {"t": "poly", "desc": {"names": [draw(st.sampled_from(["q0", "q7"]))], "shape": [], "kind": "i", "retain": False,
+                                         "terms": [[[draw(st.sampled_from([0, 1]))], [big]]]}}
+        elif t == "pyint":
             val = {"t": "pyint", "v": big}
         elif t == "np":
             val = {"t": "np", "dtype": draw(st.sampled_from(["int64", "int32", "uint32"] if big >= 0 else ["int64", "int32"])), "v": big}
@@ -323,7 +327,8 @@ def check_case(case, ctx):
     # integer polynomials are raised to their powers in integers)
     all_supplied = len(env_models) == len(names)
     poly_args_float = all(float_valued(s["val"]) for s in case["spec"] if s["val"] and s["val"]["t"] == "poly")
-    float_result = (full_numeric or (all_supplied and any_poly_arg and poly_args_float)) and (
+    # (with inexact coefficients or another inexact argument also integer polynomials are raised as floats)
+    float_result = (full_numeric or (all_supplied and any_poly_arg)) and (
         case["poly"]["kind"] in ("f", "c") or any(float_valued(s["val"]) for s in case["spec"]))
     single = any(s["val"] and s["val"].get("dtype") in ("float32", "complex64") for s in case["spec"])
     # (next to a single-precision carrier Python numbers adapt to it: its range and precision apply)
